@@ -4,6 +4,7 @@
 //!   c04 fp <seed> <reps> <shape> <order>
 //!   c04 fp <seed> <reps> steady <chunk> <mix> <policy> <primer> <delta> [align]   (bounded live set, see workload.rs)
 //! output (same line format as alloc_probe, unit = 4 KiB pages):
+//!   A <rep> <segments> <segment bytes outside top> <dvsize> <smallmap> <treemap>   (repeat shapes, everything freed)
 //!   B 0 / R <index> <footprint pages> <failed calls> <VmSize pages above baseline> / S <peak live> <churned> <calls>
 //! The workload is bracketed by sysmon BEGIN/END markers (scenario 4): under `sysmon --inject 4:*:1:25:...` the
 //! kernel's answers to mremap / munmap are replaced by failures while the allocator trims and releases.
@@ -117,6 +118,9 @@ fn main() {
         total.failed += st.failed;
         let s = heap.0.verif_stats();
         println!("R {} {} {} {}", rep, s.footprint / 4096, st.failed, vmsize_pages().saturating_sub(base_vm + (foreign.bytes / 4096) as u64));
+        // the allocator's books at all-freed quiescence: segment bytes that are NOT top (nothing is live, so with a
+        // single segment everything must have coalesced into top), dv, bin maps
+        println!("A {} {} {} {} {} {}", rep, s.segments, s.segment_bytes.saturating_sub(s.topsize), s.dvsize, s.smallmap, s.treemap);
     }
     marker::end(4, 0, 0, 0, 0);
     println!("S {} {} {} 0 {} {}", total.peak_live, total.churned, total.calls, max_segments, foreign.mapped);
